@@ -36,6 +36,12 @@ def run(ctx):
         suite += [("W3", 5, None, 40000)]
     hotcommon.run_suite(ctx, suite, hotcommon.classify_other("C06"))
     hotcommon.pass_binding_demo(ctx)
+    # precision across caches and threads: an entry read through ANOTHER cache (or on a helper thread) is not a
+    # dependency, even when this cache has an asset with the same id and type
+    rep = worlds.parse_report(vlib.run_bin("amv", ["c14-extra", ctx.seed]))
+    ctx.cov["cross_cache_cases"] = rep["cases"]
+    for m in rep["mismatches"]:
+        ctx.violation("C06/cross-cache:" + str(m.get("what", "?"))[:60], m.get("what"), {"mismatch": m})
     # a polling reader against the reloader: the id and the value change together (guards log both)
     import os
     import checks.c07 as c07
